@@ -15,7 +15,7 @@ step of a thread under the baton scheduler of `harness/h_pool.cpp`.  All critica
 The model follows the code as it is, including the two repairs (`Cfg.raOwns`, `Cfg.dtorOutside`); with the flags off
 it is the pinned code (witness theorems in `Props/C11.lean`).
 
-Ghost fields (`ran dropped cancelled valued lost ranOn owner loc deferOn detached`) are never consulted by control flow.
+Ghost fields (`ran dropped cancelled valued lost ranOn owner loc deferOn detached awake`) are never consulted by control flow.
 -/
 namespace Cocls.Pool
 
@@ -31,12 +31,16 @@ inductive Kind where
 /-- what the body of a unit of work does when it runs -/
 inductive Prim where
   | stop | subFn | subDet | destroy
+  | wait (f : Nat)   -- block (user-level, e.g. on another job's future) until event `f` has been signalled
+  | set (f : Nat)    -- signal event `f`
   deriving DecidableEq, Repr, Inhabited
 
 inductive Act where
   | submit (k : Kind) (body : List Prim) (killer : Bool)   -- killer: the destructor of the closure that ran deletes the pool
   | stop
   | destroy
+  | wait (f : Nat)
+  | set (f : Nat)
   deriving DecidableEq, Repr, Inhabited
 
 def Prim.toAct : Prim → Act
@@ -44,6 +48,8 @@ def Prim.toAct : Prim → Act
   | Prim.subFn => Act.submit Kind.fn [] false
   | Prim.subDet => Act.submit Kind.det [] false
   | Prim.destroy => Act.destroy
+  | Prim.wait f => Act.wait f
+  | Prim.set f => Act.set f
 
 structure Cfg where
   nw : Nat                       -- worker threads 0..nw-1
@@ -103,6 +109,7 @@ inductive Ret where
 inductive Pc where
   | idle                          -- run the next action of the current activity
   | afterEnq (j : Nat) (acc : Bool)   -- `enqueue` returned (its critical section is over)
+  | waitFlag (f : Nat)            -- blocked in a user-level wait for event `f`
   | stopJoin                      -- `stop()`: walk the local copy of the thread list
   | joinBlocked                   -- `stop()`: blocked in `join()`
   | stopDrop                      -- `stop()`: destroy the swapped-out queue, return
@@ -127,6 +134,7 @@ inductive Ev where
   | run (j t : Nat) (cur : Bool)
   | cancel (j t : Nat)
   | value (j t : Nat)
+  | flagBlock (t f : Nat) | flagSet (f t : Nat)
   | stopBegin (t : Nat) | stopEnd (t : Nat) | destroyBegin (t : Nat) | destroyed (t : Nat) | destroySkip (t : Nat)
   deriving DecidableEq, Repr, Inhabited
 
@@ -139,6 +147,7 @@ structure State where
   woken : Nat → Bool := fun _ => false
   cur : Nat → Bool                   -- thread-local `_current == this`
   destroyed : Bool := false
+  flag : Nat → Bool := fun _ => false   -- user-level events (not part of the pool)
   -- threads
   pc : Nat → Pc
   todo : Nat → List Act
@@ -166,6 +175,7 @@ structure State where
   loc : Nat → Loc := fun _ => Loc.fresh
   deferOn : Nat → Option Nat := fun _ => none
   detached : Nat → Bool := fun _ => false
+  awake : List Nat                         -- workers that will look at the queue before they sleep: notified or at the loop head
   touchedAfterDetach : Bool := false       -- a worker executed loop code on the pool after detaching itself
 
 def upd {α} (f : Nat → α) (i : Nat) (v : α) : Nat → α := fun j => if j = i then v else f j
@@ -177,6 +187,7 @@ theorem upd_apply {α} (f : Nat → α) (i j : Nat) (v : α) : upd f i v j = if 
 
 def init (c : Cfg) : State :=
   { threads := List.range c.nw,
+    awake := List.range c.nw,
     cur := fun t => decide (t < c.nw),
     pc := fun t => if t < c.nw then Pc.wLoop else if t < c.nt then Pc.idle else Pc.done,
     todo := fun t => if c.nw ≤ t ∧ t < c.nt then c.script t else [],
@@ -194,7 +205,7 @@ oldest, `k = 0`) is notified -/
 def notifyOne (s : State) (k : Nat) : State :=
   match s.waitq[k % s.waitq.length]? with
   | none => s
-  | some w => { s with waitq := s.waitq.erase w, woken := upd s.woken w true }
+  | some w => { s with waitq := s.waitq.erase w, woken := upd s.woken w true, awake := w :: s.awake }
 
 /-- the closure of job `j` is destroyed on thread `t` without having been invoked -/
 def dropJob (c : Cfg) (s : State) (t j : Nat) : State × List Ev :=
@@ -280,6 +291,11 @@ def stepIdle (s : State) (t k : Nat) : State × List Ev × Outcome :=
   | Act.destroy :: rest =>
       if s.destroyed then ({ s with todo := upd s.todo t rest }, [Ev.destroySkip t], Outcome.cont)
       else stepStopCS s t rest true
+  | Act.wait f :: rest =>
+      if s.flag f then ({ s with todo := upd s.todo t rest }, [], Outcome.cont)
+      else ({ s with todo := upd s.todo t rest, pc := upd s.pc t (Pc.waitFlag f) }, [Ev.flagBlock t f], Outcome.blocked)
+  | Act.set f :: rest =>
+      ({ s with todo := upd s.todo t rest, flag := upd s.flag f true }, [Ev.flagSet f t], Outcome.cont)
 
 def stepAfterEnq (c : Cfg) (s : State) (t j : Nat) (acc : Bool) : State × List Ev × Outcome :=
   if acc then
@@ -317,14 +333,14 @@ def stepStopDrop (c : Cfg) (s : State) (t k : Nat) : State × List Ev × Outcome
     else (setPc s t Pc.idle, [Ev.stopEnd t], Outcome.cont)
 
 def stepWLoop (s : State) (t : Nat) : State × List Ev × Outcome :=
-  if s.exit then ({ s with pc := upd s.pc t Pc.wExit, touchedAfterDetach := s.touchedAfterDetach || s.detached t },
+  if s.exit then ({ s with pc := upd s.pc t Pc.wExit, awake := s.awake.erase t, touchedAfterDetach := s.touchedAfterDetach || s.detached t },
                   [Ev.unlock t], Outcome.op)
   else
     match s.q with
     | j :: rest =>
-        ({ s with q := rest, pc := upd s.pc t (Pc.wRun j), loc := upd s.loc j (Loc.held t),
+        ({ s with q := rest, pc := upd s.pc t (Pc.wRun j), loc := upd s.loc j (Loc.held t), awake := s.awake.erase t,
                   touchedAfterDetach := s.touchedAfterDetach || s.detached t }, [Ev.unlock t], Outcome.op)
-    | [] => ({ s with waitq := s.waitq ++ [t], pc := upd s.pc t Pc.wCvCheck,
+    | [] => ({ s with waitq := s.waitq ++ [t], pc := upd s.pc t Pc.wCvCheck, awake := s.awake.erase t,
                       touchedAfterDetach := s.touchedAfterDetach || s.detached t }, [Ev.unlock t], Outcome.op)
 
 def stepWCvCheck (s : State) (t : Nat) : State × List Ev × Outcome :=
@@ -364,7 +380,7 @@ def stepWAfterJob (c : Cfg) (s : State) (t : Nat) : State × List Ev × Outcome 
     if !c.dtorOutside && jobKiller s t && !s.destroyed then
       -- pinned code: the closure is destroyed with `_mx` held; its destructor deletes the pool: `stop()` locks `_mx` again
       (setPc s t Pc.stuck, [Ev.destroyBegin t, Ev.lockBlock t], Outcome.blocked)
-    else ({ s with job := upd s.job t none, pc := upd s.pc t Pc.wLoop }, [], Outcome.cont)
+    else ({ s with job := upd s.job t none, pc := upd s.pc t Pc.wLoop, awake := t :: s.awake }, [], Outcome.cont)
   else
     -- `return`: the pool may be gone, nothing of it is touched
     if !c.dtorOutside && jobKiller s t then
@@ -377,6 +393,7 @@ def step (c : Cfg) (s : State) (t k : Nat) : State × List Ev × Outcome :=
   match s.pc t with
   | Pc.idle => stepIdle s t k
   | Pc.afterEnq j acc => stepAfterEnq c s t j acc
+  | Pc.waitFlag _ => (setPc s t Pc.idle, [], Outcome.cont)
   | Pc.stopJoin => stepStopJoin s t
   | Pc.joinBlocked => stepJoinBlocked s t
   | Pc.stopDrop => stepStopDrop c s t k
@@ -396,6 +413,7 @@ def enabled (s : State) (t : Nat) : Bool :=
   | Pc.done => false
   | Pc.stuck => false
   | Pc.wCvBlocked => s.woken t
+  | Pc.waitFlag f => s.flag f
   | Pc.joinBlocked =>
       match s.tmp t with
       | u :: _ => s.pc u == Pc.done
